@@ -57,7 +57,13 @@ def r1_vocabularies(ctx):
     for n in ast.walk(fitter):
         if isinstance(n, ast.Compare) and isinstance(n.ops[0], ast.NotIn) \
                 and "range_type" in norm(n.left):
-            accepted_by_fit = literal(n.comparators[0])
+            c0 = n.comparators[0]
+            if isinstance(c0, ast.Name) and c0.id in ctx.repo.mod(
+                    "fit").assigns:
+                c0 = ctx.repo.mod("fit").assigns[c0.id][-1]
+            accepted_by_fit = literal(c0)
+            if isinstance(accepted_by_fit, tuple):
+                accepted_by_fit = list(accepted_by_fit)
     if not isinstance(accepted_by_fit, list):
         raise AnchorError("fitter's accepted range types not found")
     rt_lists = []
